@@ -80,6 +80,9 @@ type _parser struct {
 
 	mode Mode
 
+	nesting  int  // current depth of nested expressions/statements, see enterNesting
+	tooDeep  bool // maxNestingDepth was exceeded: the parse is being abandoned
+
 	file *file.File
 
 	comments *ast.Comments
@@ -273,6 +276,29 @@ func (self *_parser) parse() (*ast.Program, error) {
 
 func (self *_parser) next() {
 	self.token, self.literal, self.idx = self.scan()
+}
+
+// maxNestingDepth bounds the syntactic nesting (parentheses, brackets, braces, prefix operators, blocks, ...).
+// The parser is recursive; without a bound a snippet of about one megabyte of opening parentheses exhausts
+// the goroutine stack, which is a fatal error that no recover() can catch.
+const maxNestingDepth = 100000
+
+// enterNesting counts one more level of nesting. Beyond maxNestingDepth one error is recorded and the
+// scanner is moved to the end of the input, so that all callers unwind as they do on a truncated file
+// (the follow-up errors of the unwinding callers are not recorded, see error).
+func (self *_parser) enterNesting() {
+	self.nesting++
+	if self.nesting > maxNestingDepth && !self.tooDeep {
+		self.error(self.idx, "Maximum nesting depth exceeded")
+		self.tooDeep = true
+		self.chrOffset, self.offset, self.chr = self.length, self.length, -1
+		self.token, self.literal, self.idx = token.EOF, "", self.idxOf(self.length)
+		self.insertSemicolon, self.implicitSemicolon = false, false
+	}
+}
+
+func (self *_parser) leaveNesting() {
+	self.nesting--
 }
 
 func (self *_parser) optionalSemicolon() {
